@@ -9,7 +9,7 @@ and top-level parameters ('p','q'); names are resolved by the scope that reaches
   {'k':'func','id':..,'ch':ch,'dur':num,'a':num,'b':num,'meas':[...]}      FunctionPT('a*t + b', dur, ch); a, b per real time
   {'k':'amc','id':..,'meas':[...],'subs':[atom nodes on disjoint channels, same duration]}   AtomicMultiChannelPT
   {'k':'seq','id':..,'meas':[...],'subs':[node...]}
-  {'k':'rep','id':..,'meas':[...],'n':int,'body':node}
+  {'k':'rep','id':..,'meas':[...],'n':int | affine expression of TOP-LEVEL parameters (family exprattr),'body':node}
   {'k':'for','id':..,'meas':[...],'idx':'i','range':[a,b,s],'body':node}
   {'k':'map','id':..,'chmap':{inner:outer},'mmap':{inner_name:outer_name} (optional),
    'pmap':{inner_parameter: number|expression over the OUTER names} (optional; may rebind a name to an expression of
@@ -139,7 +139,9 @@ def _build_pt(node, objs=None, path=(), share=None):
         pt = SequencePT(*[build_pt(s, objs, tuple(path) + (i,), share) for i, s in enumerate(node['subs'])],
                         identifier=ident, measurements=meas)
     elif k == 'rep':
-        pt = RepetitionPT(sub('body'), node['n'], identifier=ident, measurements=meas)
+        # (round 6: the count may be an affine expression of top-level parameters, written like every other expression)
+        pt = RepetitionPT(sub('body'), str(_expr(node['n'])) if isinstance(node['n'], list) else node['n'],
+                          identifier=ident, measurements=meas)
     elif k == 'for':
         pt = ForLoopPT(sub('body'), node['idx'], tuple(node['range']), identifier=ident, measurements=meas)
     elif k == 'map':
